@@ -62,7 +62,7 @@ ADV_FULL = [30, 720, 1430, 1450, D5 - 10, D5 + 80]
 def configs(tier):
     """(name, cfg text) per TLC run.  Sizes are fitted to measured case counts (see per-config comments)."""
     common_wide = dict(ages=AGES_FULL, future_ages=[120], ne_ages=[0, 43200], ne_all=False,
-                       tt_past=TT_PAST_FULL, tt_future=TT_FUTURE_FULL, tt_corrupt=6)
+                       tt_past=TT_PAST_FULL, tt_future=TT_FUTURE_FULL, tt_corrupt=7)
     if tier == "quick":
         return [
             # exhaustive: one index entry + its output, every pair of ages, a due trim, <= 1 use, <= 1 advance of 5d-10m
@@ -79,7 +79,7 @@ def configs(tier):
         ("ages", cfg(ids=[1], ages=AGES_FULL, future_ages=[120], ne_ages=[43200], ne_all=True,
                      tt_past=[1450], tt_future=[], tt_corrupt=0, adv=[30, 1450, D5 - 10], max_look=1, max_adv=1, max_trim=1)),
         ("due", cfg(ids=[1], ages=[0, D5 + 70, 43200], future_ages=[], ne_ages=[43200], ne_all=True,
-                    tt_past=TT_PAST_FULL, tt_future=TT_FUTURE_FULL, tt_corrupt=6, adv=[30, 1430, 1450, D5 - 10],
+                    tt_past=TT_PAST_FULL, tt_future=TT_FUTURE_FULL, tt_corrupt=7, adv=[30, 1430, 1450, D5 - 10],
                     max_look=0, max_adv=1, max_trim=2, with_store=False)),
         ("wide", cfg(ids=[1, 2, 3], adv=[720, 1450, D5 - 10], max_look=1, max_adv=1, max_trim=1, sample=100, tt_sample=2, **common_wide)),
         ("wide2", cfg(ids=[1, 2, 3], adv=[1450], max_look=1, max_adv=1, max_trim=2, sample=30, tt_sample=1, **common_wide)),
